@@ -50,6 +50,8 @@ var (
 var (
 	WantArr  = [4]int64{7, 1, 2, 3}
 	WantArr2 = [4]int64{4, 5, 6, 8}
+	// WantArr16 is big enough to be copied with runtime.duffcopy (parameter kind 4)
+	WantArr16 = [16]int64{9, 8, 7, 6, 5, 4, 3, 2, 1}
 )
 
 // What the last callback saw.
